@@ -167,7 +167,9 @@ pub fn c05_world(seed: u64, corpus: &[Program]) -> (World, Dims) {
     } else {
         SchedSpec::Sequential
     };
-    (World { prop: "C05".into(), seed, threads, jobs, sched, note: format!("{:?}", d) }, d)
+    // ambient verbosity of the process (RUST_LOG): mostly the default, sometimes Debug or Trace
+    let log_level = if r.chance(1, 16) { 4 + r.below(2) as u8 } else { 3 };
+    (World { prop: "C05".into(), seed, threads, jobs, sched, note: format!("{:?}", d), log_level }, d)
 }
 
 /// C05 directed pass: program `p` alone on a fresh thread with the k-th hash key derived from `base`.
@@ -411,6 +413,9 @@ pub fn c16_world(seed: u64, corpus: &[Program]) -> World {
     if r.chance(1, 4) {
         w.threads[0].hash_key = to_hex(&r.bytes16());
     }
+    if r.chance(1, 24) {
+        w.log_level = 4 + r.below(2) as u8;
+    }
     w.seed = seed;
     w.note = "seeded combination".into();
     w
@@ -420,7 +425,7 @@ pub fn c16_world(seed: u64, corpus: &[Program]) -> World {
 // ---------------------------------------------------------------- directed delivery worlds
 
 /// Number of directed delivery variants per program.
-pub const DELIVERY_VARIANTS: usize = 26;
+pub const DELIVERY_VARIANTS: usize = 28;
 
 /// The v-th directed delivery of program `pi`: chunk boundaries at every byte / every 2nd, 3rd, 7th byte,
 /// `Interrupted` on every other call, a sink that takes 1 or 2 bytes per call, hard errors at the
@@ -449,6 +454,7 @@ pub fn delivery_world(prop: &str, corpus: &[Program], pi: usize, v: usize) -> Wo
         11 => j.reader.error_at = Some(n.saturating_sub(1)),
         12 => j.writer.error_at = Some(0),
         13 => j.writer.error_at = Some(200),
+        26 | 27 => {}
         _ => {
             // a failing sink at a sweep of offsets, with every error shape (payload, kind only, OS, Ok(0));
             // variants 14..=25: offsets 60, 140, .. up to ~1500 bytes
@@ -467,6 +473,12 @@ pub fn delivery_world(prop: &str, corpus: &[Program], pi: usize, v: usize) -> Wo
     }
     j.label = format!("{} delivery#{}", p.name, v);
     let mut w = World::solo(prop, j);
+    if v >= 26 {
+        // canonical delivery, but the process logs at Debug (26) / Trace (27) level
+        w.jobs[0].reader = StreamSpec::canonical();
+        w.jobs[0].writer = StreamSpec::canonical();
+        w.log_level = if v == 26 { 4 } else { 5 };
+    }
     w.seed = crate::rng::mix(0xDE11, (pi as u64) << 8 | v as u64);
     w.note = format!("directed delivery variant {} of program {}", v, pi);
     w
